@@ -6,6 +6,13 @@ use crate::obs::{Ctx, Tier};
 
 pub const RULE: &str = "";
 
+/// Every other type name of the PURL spec (none of them is built in).
+pub const SPEC_OTHER_TYPES: &[&str] = &[
+    "alpm", "apk", "bitbucket", "bitnami", "cocoapods", "composer", "conan", "conda", "cpan", "cran", "deb", "docker",
+    "generic", "github", "hackage", "hex", "huggingface", "luarocks", "mlflow", "oci", "pub", "qpkg", "rpm", "swid",
+    "swift",
+];
+
 pub fn requirements(_tier: Tier) -> Vec<(&'static str, u64)> {
     vec![("not-implemented", 1)]
 }
